@@ -104,7 +104,8 @@ def rprogram(rnd, maxdepth=5):
         # control flow at global scope before the functions (the label counter is script-wide)
         prog += block(rnd, GVARS, [], rnd.randint(1, max(1, maxdepth - 1)), False, False, ctr)
     for i, f in enumerate(fns):
-        args = [['pa'], ['pa', 'pb'], []][rnd.randrange(3)]
+        # parameters may carry the name of a global: a MISSING argument is null, it does not fall through to the global
+        args = [['pa'], ['pa', 'pb'], [], ['ga'], ['gb', 'pa'], ['pa', 'ga']][rnd.randrange(6)]
         callable_ = fns[:i + 1] if rnd.random() < 0.3 else fns[:i]      # occasional (guarded) recursion
         body = []
         if f in callable_:
